@@ -407,7 +407,7 @@ end
 def decodeVarlen (b : Bytes) : Res (Bytes × Nat) :=
   match decodeVarint b with
   | .ok (v, n) =>
-    if v.toNat > b.length - n then .err "unexpectedEof"
+    if !hasAtLeast (b.drop n) v.toNat then .err "unexpectedEof"
     else .ok ((b.drop n).take v.toNat, n + v.toNat)
   | .err e => .err e
   | .panic e => .panic e
